@@ -214,6 +214,55 @@ class Shadow:
         else:
             raise Bad("sop " + k)
 
+    def bind(self, params, fr0):
+        """bind the parameters of a call whose arguments are resolved in the frame fr0 (main: []); every parameter
+        allocates one location. Returns (frame, write-through list, copy-back list)"""
+        fr, thru, back = [], [], []
+        for prm in params:
+            md = prm["mode"]
+            if md == "val" or md == "pval":      # value (struct/array/int tree, or the value of a pointer variable)
+                self.h.append(self.read(self.resolve(prm["arg"], fr0)))
+                fr.append((len(self.h) - 1, ()))
+            elif md == "ptr":                    # &arg passed to a T* parameter
+                self.h.append(self.resolve(prm["arg"], fr0))
+                fr.append((len(self.h) - 1, ()))
+            elif md == "ref":
+                fr.append(self.resolve(prm["arg"], fr0))
+                self.h.append(0)                 # dummy: keeps location numbering independent of the mode
+            elif not self.mech:                  # arr / self in Spec: the argument's cell
+                fr.append(self.resolve(prm["arg"], fr0))
+                self.h.append(0)
+            else:                                # arr / self in Mech: copy in
+                c = self.resolve(prm["arg"], fr0)
+                self.h.append(self.read(c))
+                tmp = len(self.h) - 1
+                fr.append((tmp, ()))
+                thru.append((tmp, c))
+                back.append((tmp, c))
+        return fr, thru, back
+
+    def call(self, o, fr0, thru0):
+        """a call made from main (fr0 = [], thru0 = []) or from inside a callee body (nested call: arguments and
+        the destination of the returned value are resolved in the caller's frame fr0)"""
+        fr, thru, back = self.bind(o["params"], fr0)
+        th = thru + list(thru0)
+        for s in o["body"]:
+            if s["k"] == "call":
+                self.call(s, fr, th)
+            else:
+                self.sop(s, fr, th)
+        rv = None
+        if o.get("ret") is not None:
+            rv = self.read(self.resolve(o["ret"]["e"], fr))
+        for tmp, c in back:
+            self.write(c, self.read((tmp, ())))
+        if rv is not None:
+            d = o["ret"]["d"]
+            if d is None:
+                self.h.append(rv)
+            else:
+                self.write(self.resolve(d, fr0), rv, thru0)
+
     def op(self, o):
         k = o["k"]
         if k in ("w", "cp", "addr", "rd"):
@@ -224,41 +273,7 @@ class Shadow:
             v = self.read(self.resolve(o["s"], []))
             self.h.append(v)
         elif k == "call":
-            fr, thru, back = [], [], []
-            for prm in o["params"]:
-                md = prm["mode"]
-                if md == "val" or md == "pval":      # value (struct/array tree, or the value of a pointer variable)
-                    self.h.append(self.read(self.resolve(prm["arg"], [])))
-                    fr.append((len(self.h) - 1, ()))
-                elif md == "ptr":                    # &arg passed to a T* parameter
-                    self.h.append(self.resolve(prm["arg"], []))
-                    fr.append((len(self.h) - 1, ()))
-                elif md == "ref":
-                    fr.append(self.resolve(prm["arg"], []))
-                    self.h.append(0)                 # dummy: keeps location numbering independent of the mode
-                elif not self.mech:                  # arr / self in Spec: the argument's cell
-                    fr.append(self.resolve(prm["arg"], []))
-                    self.h.append(0)
-                else:                                # arr / self in Mech: copy in
-                    c = self.resolve(prm["arg"], [])
-                    self.h.append(self.read(c))
-                    tmp = len(self.h) - 1
-                    fr.append((tmp, ()))
-                    thru.append((tmp, c))
-                    back.append((tmp, c))
-            for s in o["body"]:
-                self.sop(s, fr, thru)
-            rv = None
-            if o.get("ret") is not None:
-                rv = self.read(self.resolve(o["ret"]["e"], fr))
-            for tmp, c in back:
-                self.write(c, self.read((tmp, ())))
-            if rv is not None:
-                d = o["ret"]["d"]
-                if d is None:
-                    self.h.append(rv)
-                else:
-                    self.write(self.resolve(d, []), rv)
+            self.call(o, [], [])
         else:
             raise Bad("op " + k)
 
@@ -320,7 +335,9 @@ class Gen:
     def __init__(self, rng, allow, place="local", maxcopies=3):
         self.rng, self.allow, self.place = rng, allow, place
         self.sh = Shadow(False)
-        self.vt = {i: t for i, (_, t) in enumerate(VARS)}
+        self.vt = {i: t for i, (_, t) in enumerate(VARS)}      # variables visible in main
+        self.tyall = dict(self.vt)                                # type of every named location (incl. callee locals)
+        self.locals = {}                                          # locals of the callee body being generated
         self.ops = []
         self.sigs = []          # signatures used (histogram)
         self.avoided = 0
@@ -344,6 +361,8 @@ class Gen:
         if in_callee:
             for i, t in enumerate(env.pt):
                 add(t, ("par", i))
+            for loc, t in self.locals.items():
+                add(t, ("v", loc))
         # pointer dereferences (only valid, non-null pointers)
         for t in ("*P", "*In", "*int"):
             for pa in list(roots.get(t, [])):
@@ -438,7 +457,7 @@ class Gen:
 
     def read_all(self, forms=("plain",)):
         """reads of every scalar cell of the named variables through the plain path (one rd op per variable)"""
-        env = TypeEnv(self.vt)
+        env = TypeEnv(self.tyall)
         out = []
         for loc, t in sorted(self.vt.items()):
             if t.startswith("*"):
@@ -458,37 +477,50 @@ class Gen:
                 out.append({"k": "rd", "id": self.next_id, "as": es, "form": form, "stys": stys, "sigs": sigs})
         return out
 
-    def gen_call(self, force=None):
+    def gen_call(self, envc=None, frc=(), pmc=None, ctxc="M", depth=0):
+        """a call whose arguments come from the calling context: main (depth 0), or the body of a callee with type
+        environment envc, frame frc, parameter modes pmc and context letter ctxc (nested call, depth 1).
+        Receiver forms: every access expression of the struct type available there (name, p->, (*p)., T& / T /
+        T* parameter, self); exit forms: falling off the end, `return;`, `return e;` (int or struct)."""
         r = self.rng
-        env0 = TypeEnv(self.vt)
-        nparams = r.choice([1, 1, 1, 2, 2, 3])
+        in_c = depth > 0
+        envc = envc or TypeEnv(self.tyall)
+        frc = list(frc)
         params, fr_types, pmodes = [], [], []
-        is_method = r.random() < 0.3
+        is_method = r.random() < 0.45
         if is_method:
-            nparams = 1         # interface methods with T& / T* / struct parameters are rejected by the front end
-        for i in range(nparams):
-            if i == 0 and is_method:
-                ty = r.choice(["P", "P", "In"])
-                p = self.pick("recv", ty, env0, [], None, False, "M")
-                if not p:
-                    return None
-                params.append({"mode": "self", "ty": ty, "arg": p[0], "sty": p[1], "sig": p[2]})
-                fr_types.append(ty); pmodes.append("self")
-                continue
-            mode = r.choice(["val", "ref", "ptr", "pval", "arr", "val", "ref", "ptr"])
-            if mode == "arr":
-                ty = r.choice(["A3", "A3", "PS", "ES"])
-            elif mode in ("ptr", "pval"):
-                ty = r.choice(["P", "P", "In", "int"])
-            elif mode == "ref":
-                ty = r.choice(["P", "P", "In", "int"])
+            # interface methods with T& / T* / struct parameters are rejected by the front end: self + int parameters
+            ty = r.choice(["P", "In", "In", "In"])
+            pred = None
+            if r.random() < 0.5:                 # aim at receivers reached through a pointer
+                pred = lambda a: a[0] == "d"
+            p = self.pick("recv", ty, envc, frc, pmc, in_c, ctxc, pred=pred) or \
+                (pred and self.pick("recv", ty, envc, frc, pmc, in_c, ctxc))
+            if not p:
+                return None
+            params.append({"mode": "self", "ty": ty, "arg": p[0], "sty": p[1], "sig": p[2]})
+            fr_types.append(ty); pmodes.append("self")
+            modes = ["int"] * r.choice([0, 0, 1, 1, 2])
+        else:
+            modes = [r.choice(["val", "ref", "ptr", "pval", "arr", "val", "ref", "ptr", "int"])
+                     for _ in range(r.choice([1, 1, 1, 2, 2, 3]))]
+        for mode in modes:
+            if mode == "int":
+                ty = "int"
+                p = self.pick("argint", "int", envc, frc, pmc, in_c, ctxc)
+                mode = "val"
+            elif mode == "pval":
+                ty = r.choice(["P", "P", "In", "In", "int"])
+                p = self.pick("argpval", "*" + ty, envc, frc, pmc, in_c, ctxc,
+                              pred=lambda a: isinstance(self.sh.read(self.sh.resolve(a, frc)), tuple))
             else:
-                ty = r.choice(["P", "P", "In"])
-            if mode == "pval":
-                p = self.pick("argpval", "*" + ty, env0, [], None, False, "M",
-                              pred=lambda a: isinstance(self.sh.read(self.sh.resolve(a, [])), tuple))
-            else:
-                p = self.pick("arg" + mode, ty, env0, [], None, False, "M")
+                if mode == "arr":
+                    ty = r.choice(["A3", "A3", "PS", "ES"])
+                elif mode in ("ptr", "ref"):
+                    ty = r.choice(["P", "P", "In", "In", "int"])
+                else:
+                    ty = r.choice(["P", "P", "In", "In"])
+                p = self.pick("arg" + mode, ty, envc, frc, pmc, in_c, ctxc)
             if not p:
                 return None
             params.append({"mode": mode, "ty": ty, "arg": p[0], "sty": p[1], "sig": p[2]})
@@ -496,27 +528,43 @@ class Gen:
             pmodes.append(mode)
         fid = self.next_fid
         self.next_fid += 1
-        call = {"k": "call", "fid": fid, "params": params, "body": [], "ret": None,
+        call = {"k": "call", "fid": fid, "params": params, "body": [], "ret": None, "exit": "fall",
                 "sigs": [p["sig"] for p in params]}
-        # set up the callee frame in a scratch shadow (parameter locations allocated, empty body)
+        # bind the parameters in a scratch shadow and generate the body there
+        saved, saved_locals = self.sh, self.locals
         trial = copy.deepcopy(self.sh)
-        nloc0 = len(trial.h)
-        trial.op(call)
-        fr = []
-        loc = nloc0
-        for prm in params:
-            if prm["mode"] in ("val", "pval", "ptr"):
-                fr.append((loc, ()))
-            else:
-                fr.append(self.sh.resolve(prm["arg"], []))
-            loc += 1
-        saved = self.sh
-        self.sh = trial
-        env = TypeEnv(self.vt, fr_types)
-        ctx = "S" if is_method else "F"
+        try:
+            fr, _, _ = trial.bind(params, frc)
+        except Bad:
+            return None
+        self.sh, self.locals = trial, {}
+        env = TypeEnv(self.tyall, fr_types)
+        ctx = (("T" if is_method else "E") if in_c else ("S" if is_method else "F"))
+        kinds = ["w", "w", "w", "rd", "rd", "cp"] + ([] if in_c else ["call", "call"])
         body = []
         for _ in range(r.randint(1, 4)):
-            s = self.gen_sop(env, fr, pmodes, True, ctx, ["w", "w", "w", "rd", "rd", "cp"])
+            kind = r.choice(kinds)
+            if kind == "call":
+                nc = self.gen_call(env, fr, pmodes, ctx, depth + 1)
+                if not nc:
+                    continue
+                n0 = len(self.sh.h)
+                try:
+                    self.sh.call(nc, fr, ())
+                except Bad:
+                    continue
+                body.append(nc)
+                if nc["ret"] and nc["ret"]["d"] is None:          # result kept in a local of this body: read it at once
+                    loc = len(self.sh.h) - 1
+                    nc["ret"]["loc"] = loc
+                    self.locals[loc] = self.tyall[loc] = nc["ret"]["ty"]
+                    if nc["ret"]["ty"] == "int":
+                        self.next_id += 1
+                        st = {"arrow": True, "ivar": False}
+                        body.append({"k": "rd", "id": self.next_id, "as": [("v", loc)], "form": "plain", "stys": [st],
+                                     "sigs": [self.sig(ctx, "r-plain", ("v", loc), env, fr, pmodes, st)]})
+                continue
+            s = self.gen_sop(env, fr, pmodes, True, ctx, [kind])
             if s:
                 try:
                     self.sh.sop(s, fr)
@@ -524,23 +572,34 @@ class Gen:
                     continue
                 body.append(s)
         ret = None
-        if r.random() < 0.3:
-            ty = r.choice(["P", "P", "In"])
-            e = self.pick("ret", ty, env, fr, pmodes, True, ctx)
+        if r.random() < 0.45:
+            ty = r.choice(["P", "In", "In", "int", "int", "int"])
+            role = "reti" if ty == "int" else "ret"
+            e = self.pick(role, ty, env, fr, pmodes, True, ctx)
             if e:
-                if r.random() < 0.3 and sum(1 for l in self.vt if l >= NV) < self.maxcopies:
+                ncopies = sum(1 for l in self.vt if l >= NV) + len(saved_locals)
+                if r.random() < 0.3 and ncopies < self.maxcopies:
                     ret = {"e": e[0], "d": None, "ty": ty, "sty": e[1], "sigs": [e[2]]}
                 else:
-                    self.sh = saved
-                    d = self.pick("retd", ty, env0, [], None, False, "M")
-                    self.sh = trial
+                    self.sh, self.locals = saved, saved_locals
+                    d = self.pick(role.replace("ret", "retd"), ty, envc, frc, pmc, in_c, ctxc)
+                    self.sh, self.locals = trial, {}
                     if d:
                         ret = {"e": e[0], "d": d[0], "ty": ty, "sty": e[1], "sty2": d[1], "sigs": [e[2], d[2]]}
-        self.sh = saved
+        self.sh, self.locals = saved, saved_locals
         if not body and not ret:
             return None
         call["body"] = body
         call["ret"] = ret
+        if not ret:
+            call["exit"] = r.choice(["fall", "ret"])
+        if ret or call["exit"] == "ret":        # the callee leaves through a return statement: flag R on the argument forms
+            for prm in params:
+                prm["sig"] += "R"
+                if not self.allow(prm["sig"]):
+                    self.avoided += 1
+                    return None
+            call["sigs"] = [prm["sig"] for prm in params]
         for s in body:
             call["sigs"] += s["sigs"]
         if ret:
@@ -552,17 +611,17 @@ class Gen:
         nloc = len(self.sh.h)
         self.sh.op(o)
         if o["k"] == "decl":
-            self.vt[nloc] = o["ty"]
+            self.vt[nloc] = self.tyall[nloc] = o["ty"]
             o["loc"] = nloc
         if o["k"] == "call" and o["ret"] and o["ret"]["d"] is None:
-            self.vt[len(self.sh.h) - 1] = o["ret"]["ty"]
+            self.vt[len(self.sh.h) - 1] = self.tyall[len(self.sh.h) - 1] = o["ret"]["ty"]
             o["ret"]["loc"] = len(self.sh.h) - 1
         self.ops.append(o)
         self.sigs += o.get("sigs", [])
 
     def step(self, k):
         r = self.rng
-        env = TypeEnv(self.vt)
+        env = TypeEnv(self.tyall)
         if k == "call":
             o = self.gen_call()
             if o and not self.spec_eq_mech(o):
@@ -587,7 +646,7 @@ class Gen:
     def read_paths(self, cell=None):
         """one rd op per form (plain / interpolation / temporary) reading ONE cell through every available
         access path that denotes it (name, member path, element, dereference / arrow of every pointer to it)"""
-        env = TypeEnv(self.vt)
+        env = TypeEnv(self.tyall)
         cands = self.exprs_of("int", env, [], False)
         if cell is None:
             if not cands:
@@ -624,6 +683,35 @@ class Gen:
             ok = self.step(k)
             if ok and k == "w" and self.rng.random() < 0.4:
                 self.read_paths(self.sh.resolve(self.ops[-1]["a"], []))
+            if ok and k == "call" and self.rng.random() < 0.7:
+                self.read_back(self.ops[-1])
+
+    def read_back(self, call):
+        """after a call: read scalar cells of the objects the callee could reach (receiver, T& / T* / array
+        arguments, also of nested calls' targets as far as they are caller objects) through EVERY access path"""
+        cells = []
+        for prm in call["params"]:
+            if prm["mode"] == "val":
+                continue
+            try:
+                c = self.sh.resolve(prm["arg"], [])
+                if prm["mode"] == "pval":
+                    c = self.sh.read(c)
+                    if not isinstance(c, tuple):
+                        continue
+                if c[0] not in self.vt:
+                    continue
+                t = self.vt[c[0]]
+                for k in c[1]:
+                    t = children(t)[k][1]
+            except (Bad, IndexError, KeyError):
+                continue
+            lv = [c[1] + tuple(l) for l in leaves(t)]
+            self.rng.shuffle(lv)
+            cells += [(c[0], l) for l in lv[:2]]
+        self.rng.shuffle(cells)
+        for c in cells[:2]:
+            self.read_paths(c)
 
     def spec_eq_mech(self, call):
         """the call behaves the same under aliasing and under copy-in/write-through/copy-back"""
@@ -662,16 +750,84 @@ def r_sop(s, env, pnames, ind):
     raise ValueError(k)
 
 
-def to_cb(case):
-    ops = case["ops"]
+def walk_calls(ops):
+    """all call ops of a history, nested ones included (outer before inner)"""
+    for o in ops:
+        if o["k"] == "call":
+            yield o
+            for x in walk_calls(o["body"]):
+                yield x
+
+
+def type_map(ops):
     vt = {i: t for i, (_, t) in enumerate(VARS)}
     for o in ops:
         if o["k"] == "decl":
             vt[o["loc"]] = o["ty"]
-        if o["k"] == "call" and o["ret"] and o["ret"]["d"] is None:
+    for o in walk_calls(ops):
+        if o["ret"] and o["ret"]["d"] is None:
             vt[o["ret"]["loc"]] = o["ret"]["ty"]
+    return vt
+
+
+def to_cb(case):
+    ops = case["ops"]
+    vt = type_map(ops)
     env0 = TypeEnv(vt)
     funcs, methods = [], {"P": [], "In": []}
+
+    def r_call(o, envc, pnc, ind):
+        """text of the call statement; the callee's definition is registered in funcs / methods (its own callees first)"""
+        prm = o["params"]
+        is_m = prm[0]["mode"] == "self"
+        pt, pn, decls, args = [], [], [], []
+        for i, p in enumerate(prm):
+            md, ty = p["mode"], p["ty"]
+            if md == "self":
+                pt.append(ty); pn.append("self")
+                continue
+            pn.append("q%d" % i)
+            if md in ("ptr", "pval"):
+                pt.append("*" + ty); decls.append("%s* q%d" % (ty, i))
+                args.append(("&" if md == "ptr" else "") + render(p["arg"], envc, p["sty"], pnc))
+            elif md == "ref":
+                pt.append(ty); decls.append("%s& q%d" % (cb_type(ty), i)); args.append(render(p["arg"], envc, p["sty"], pnc))
+            else:
+                pt.append(ty); decls.append("%s q%d" % (cb_type(ty), i)); args.append(render(p["arg"], envc, p["sty"], pnc))
+        env = TypeEnv(vt, pt)
+        body = []
+        for s in o["body"]:
+            if s["k"] == "call":
+                body += r_call(s, env, pn, "  ")
+            else:
+                body += r_sop(s, env, pn, "  ")
+        ret = o["ret"]
+        rty = "void"
+        if ret:
+            rty = ret["ty"]
+            body.append("  return %s;" % render(ret["e"], env, ret["sty"], pn))
+        elif o.get("exit") == "ret":
+            body.append("  return;")
+        if is_m:
+            name = "m%d" % o["fid"]
+            sig = "%s %s(%s)" % (rty, name, ", ".join(decls))
+            methods[prm[0]["ty"]].append((sig, body))
+            ra = prm[0]["arg"]
+            if ra[0] == "d" and prm[0]["sty"].get("arrow", True):
+                callee = "%s->%s" % (render(ra[1], envc, prm[0]["sty"], pnc), name)
+            else:
+                callee = "%s.%s" % (render(ra, envc, prm[0]["sty"], pnc), name)
+        else:
+            name = "f%d" % o["fid"]
+            funcs.append("%s %s(%s) {\n%s\n}" % (rty, name, ", ".join(decls), "\n".join(body)))
+            callee = name
+        ce = "%s(%s)" % (callee, ", ".join(args))
+        if not ret:
+            return ["%s%s;" % (ind, ce)]
+        if ret["d"] is None:
+            return ["%s%s c%d = %s;" % (ind, ret["ty"], ret["loc"], ce)]
+        return ["%s%s = %s;" % (ind, render(ret["d"], envc, ret.get("sty2", {}), pnc), ce)]
+
     main = []
     for o in ops:
         k = o["k"]
@@ -682,51 +838,7 @@ def to_cb(case):
         elif k == "decl":
             main.append("  %s c%d = %s;" % (o["ty"], o["loc"], render(o["s"], env0, o["sty"])))
         elif k == "call":
-            prm = o["params"]
-            is_m = prm[0]["mode"] == "self"
-            pt, pn, decls, args = [], [], [], []
-            for i, p in enumerate(prm):
-                md, ty = p["mode"], p["ty"]
-                if md == "self":
-                    pt.append(ty); pn.append("self")
-                    continue
-                pn.append("q%d" % i)
-                if md in ("ptr", "pval"):
-                    pt.append("*" + ty); decls.append("%s* q%d" % (ty, i))
-                    args.append(("&" if md == "ptr" else "") + render(p["arg"], env0, p["sty"]))
-                elif md == "ref":
-                    pt.append(ty); decls.append("%s& q%d" % (cb_type(ty), i)); args.append(render(p["arg"], env0, p["sty"]))
-                else:
-                    pt.append(ty); decls.append("%s q%d" % (cb_type(ty), i)); args.append(render(p["arg"], env0, p["sty"]))
-            env = TypeEnv(vt, pt)
-            body = []
-            for s in o["body"]:
-                body += r_sop(s, env, pn, "  ")
-            ret = o["ret"]
-            rty = "void"
-            if ret:
-                rty = ret["ty"]
-                body.append("  return %s;" % render(ret["e"], env, ret["sty"], pn))
-            if is_m:
-                name = "m%d" % o["fid"]
-                sig = "%s %s(%s)" % (rty, name, ", ".join(decls))
-                methods[prm[0]["ty"]].append((sig, body))
-                ra = prm[0]["arg"]
-                if ra[0] == "d" and prm[0]["sty"].get("arrow", True):
-                    callee = "%s->%s" % (render(ra[1], env0, prm[0]["sty"]), name)
-                else:
-                    callee = "%s.%s" % (render(ra, env0, prm[0]["sty"]), name)
-            else:
-                name = "f%d" % o["fid"]
-                funcs.append("%s %s(%s) {\n%s\n}" % (rty, name, ", ".join(decls), "\n".join(body)))
-                callee = name
-            ce = "%s(%s)" % (callee, ", ".join(args))
-            if not ret:
-                main.append("  %s;" % ce)
-            elif ret["d"] is None:
-                main.append("  %s c%d = %s;" % (ret["ty"], ret["loc"], ce))
-            else:
-                main.append("  %s = %s;" % (render(ret["d"], env0, ret.get("sty2", {})), ce))
+            main += r_call(o, env0, None, "  ")
     out = ["struct In { int v; int w; };", "struct P { int s; In inner; int[3] arr; };"]
     for ty in ("In", "P"):
         if methods[ty]:
@@ -777,7 +889,8 @@ def op_alloc(o):
     if o["k"] == "decl":
         return 1
     if o["k"] == "call":
-        return len(o["params"]) + (1 if o["ret"] and o["ret"]["d"] is None else 0)
+        return len(o["params"]) + (1 if o["ret"] and o["ret"]["d"] is None else 0) + \
+            sum(op_alloc(x) for x in o["body"] if x["k"] == "call")
     if o["k"] == "nop":
         return o["alloc"]
     return 0
@@ -790,14 +903,53 @@ def case_sigs(case):
     return sorted(set(out))
 
 
+def locs_consistent(case):
+    """the location numbers stored in the case (declared copies, results kept in fresh variables) are the ones the
+    model allocates (every parameter, declaration and fresh result allocates one location, in execution order)"""
+    n = [NV]
+
+    def call(o):
+        n[0] += len(o["params"])
+        for s in o["body"]:
+            if s["k"] == "call" and not call(s):
+                return False
+        if o["ret"] and o["ret"]["d"] is None:
+            if o["ret"].get("loc") != n[0]:
+                return False
+            n[0] += 1
+        return True
+    for o in case["ops"]:
+        if o["k"] == "decl":
+            if o.get("loc") != n[0]:
+                return False
+            n[0] += 1
+        elif o["k"] == "nop":
+            n[0] += o["alloc"]
+        elif o["k"] == "call" and not call(o):
+            return False
+    return True
+
+
+def resig_call(o):
+    o["sigs"] = [p["sig"] for p in o["params"]]
+    for s in o["body"]:
+        if s["k"] == "call":
+            resig_call(s)
+        o["sigs"] += s["sigs"]
+    if o["ret"]:
+        o["sigs"] += o["ret"]["sigs"]
+
+
 def shrink_case(case, fails, budget=400):
-    """greedy deletion (ops -> nop keeping the location numbering, callee body statements, single read
-    expressions) while `fails(case)` stays true."""
+    """greedy deletion (ops -> nop keeping the location numbering, callee body statements incl. those of nested
+    calls, single read expressions, returned values) while `fails(case)` stays true."""
     cur = copy.deepcopy(case)
     used = [0]
 
     def test(c):
         if used[0] >= budget:
+            return False
+        if not locs_consistent(c):
             return False
         used[0] += 1
         sh = shadow_run(c, True)
@@ -809,14 +961,14 @@ def shrink_case(case, fails, budget=400):
             return False            # refers to a variable whose declaration was removed
         return fails(c)
 
-    def resig(o):
-        if o["k"] == "rd":
-            return
+    def calls_of(c, i):
+        o = c["ops"][i]
+        return list(walk_calls([o])) if o["k"] == "call" else []
+
     changed = True
     while changed and used[0] < budget:
         changed = False
         # chunks of ops first, then single ops
-        n = len(cur["ops"])
         for size in (8, 4, 2, 1):
             i = 0
             while i < len(cur["ops"]):
@@ -831,30 +983,33 @@ def shrink_case(case, fails, budget=400):
                     changed = True
                 i += size
         for i, o in enumerate(cur["ops"]):
-            if o["k"] == "call":
+            # body statements and returned values of the call and of its nested calls (inner bodies first)
+            ci = len(calls_of(cur, i)) - 1
+            while ci >= 0:
                 j = 0
-                while j < len(cur["ops"][i]["body"]):
+                while ci < len(calls_of(cur, i)) and j < len(calls_of(cur, i)[ci]["body"]):
                     cand = copy.deepcopy(cur)
-                    del cand["ops"][i]["body"][j]
+                    del calls_of(cand, i)[ci]["body"][j]
                     if test(cand):
                         cur = cand
                         changed = True
                     else:
                         j += 1
-                if cur["ops"][i]["ret"] and cur["ops"][i]["ret"]["d"] is not None:
-                    cand = copy.deepcopy(cur)
-                    cand["ops"][i]["ret"] = None
-                    if test(cand):
-                        cur = cand
-                        changed = True
+                if ci < len(calls_of(cur, i)):
+                    cc = calls_of(cur, i)[ci]
+                    if cc["ret"] and cc["ret"]["d"] is not None:
+                        cand = copy.deepcopy(cur)
+                        calls_of(cand, i)[ci]["ret"] = None
+                        if test(cand):
+                            cur = cand
+                            changed = True
+                ci -= 1
             # single read expressions
             def rds(c):
                 oo = c["ops"][i]
                 if oo["k"] == "rd":
                     return [oo]
-                if oo["k"] == "call":
-                    return [x for x in oo["body"] if x["k"] == "rd"]
-                return []
+                return [x for cc in calls_of(c, i) for x in cc["body"] if x["k"] == "rd"]
             for si in range(len(rds(cur))):
                 j = 0
                 while len(rds(cur)[si]["as"]) > 1 and j < len(rds(cur)[si]["as"]):
@@ -870,11 +1025,7 @@ def shrink_case(case, fails, budget=400):
     # refresh per-op signature lists of calls
     for o in cur["ops"]:
         if o["k"] == "call":
-            o["sigs"] = [p["sig"] for p in o["params"]]
-            for s in o["body"]:
-                o["sigs"] += s["sigs"]
-            if o["ret"]:
-                o["sigs"] += o["ret"]["sigs"]
+            resig_call(o)
     cur["ops"] = [o for i, o in enumerate(cur["ops"])
                   if not (o["k"] == "nop" and o["alloc"] == 0)]
     return cur
@@ -913,16 +1064,9 @@ def ser_sop(s):
 MODE_CH = {"val": "v", "pval": "v", "ptr": "p", "ref": "r", "arr": "a", "self": "s"}
 
 
-def ser_op(o):
-    k = o["k"]
-    if k in ("w", "cp", "addr", "rd"):
-        return "S " + ser_sop(o)
-    if k == "nop":
-        return "Z %d" % o["alloc"]
-    if k == "decl":
-        return "L " + ser_aexp(o["s"])
+def ser_call(o):
     ps = " ".join("%s %s" % (MODE_CH[p["mode"]], ser_aexp(p["arg"])) for p in o["params"])
-    body = " ".join(ser_sop(s) for s in o["body"])
+    body = " ".join((ser_call(s) if s["k"] == "call" else ser_sop(s)) for s in o["body"])
     r = o["ret"]
     if not r:
         ret = "0"
@@ -931,6 +1075,17 @@ def ser_op(o):
     else:
         ret = "2 %s %s" % (ser_aexp(r["e"]), ser_aexp(r["d"]))
     return "K %d %s %d %s %s" % (len(o["params"]), ps, len(o["body"]), body, ret)
+
+
+def ser_op(o):
+    k = o["k"]
+    if k in ("w", "cp", "addr", "rd"):
+        return "S " + ser_sop(o)
+    if k == "nop":
+        return "Z %d" % o["alloc"]
+    if k == "decl":
+        return "L " + ser_aexp(o["s"])
+    return ser_call(o)
 
 
 def ser_case(case):
@@ -974,18 +1129,22 @@ AVOID = [
     ("C07-pointer-to-member", r"\|(addr|argptr)\|(?!(P|In|int|A3\[\])\|)"),
     ("C07-arrow-array-member-rejected", r"\*\([^)]*\)\.arr\[\]"),
     ("C07-arrow-nested-write-rejected", r"\|w\|\*\([^)]*\)\.inner\."),
-    ("C07-deref-whole-struct", r"\|(decl|cp[ds]|argval|recv|retd?)\|\*\("),
+    ("C07-deref-whole-struct", r"\|(decl|cp[ds]|argval|retd?)\|\*\("),
     # --- whole-struct copies
     ("C07-struct-copy-loses-members", r"\|(decl|cp[ds]|retd?)\|" + P_TYPED + r"\|"),
     ("C07-array-member-assign-noop", r"\|cp[ds]\|.*arr\|"),
     ("C07-nested-struct-whole", r"\|(decl|cp[ds]|retd?|argval|recv|addr|argptr)\|.*\.inner\|"),
-    ("C07-callee-param-struct-copy", r"^[FS].\|(cp[ds])\|par<|\|ret\|par<(ref|self|arr)"),
+    ("C07-callee-param-struct-copy", r"^[FSET].\|(cp[ds])\|par<|\|ret\|par<(ref|self|arr)"),
     # --- references / by-value parameters / self
     ("C07-ref-array-member-write-lost", r"\|w\|par<ref P>\.arr\[\]"),
     ("C07-ref-nested-write-rejected", r"\|w\|par<ref P>\.inner\."),
     ("C07-byval-nested-write-lost", r"\|w\|par<val P>\.inner"),
-    ("C07-method-wipes-members", r"\|recv\|P"),
-    ("C07-self-writethrough-stale", r"^S.\|[^|]*\|(In|P|PS|ES)|^S.\|[^|]*\|\*\("),
+    ("C07-method-wipes-members", r"\|recv\|(P\||par<\w+ P>|\*\([^)]*=>P\))"),
+    ("C07-method-on-ref-param-rejected", r"\|recv\|par<ref"),
+    ("C07-self-by-value-arg-rejected", r"\|argval\|par<self"),
+    ("C07-self-call-return-exit-write-lost", r"\|recv\|par<self [^|]*\|.*R"),
+    ("C07-array-element-dest-call-evaluated-twice", r"\|retdi\|.*\[\]"),
+    ("C07-self-writethrough-stale", r"^[ST].\|[^|]*\|(In|P|PS|ES)|^[ST].\|[^|]*\|\*\("),
     # --- documented / front-end restrictions (not defects): T& and T[n] arguments must be plain variables,
     #     a member expression cannot be passed to a struct parameter
     ("restriction-ref-arg-plain-variable", r"\|argref\|.*[.\[*]"),
@@ -1032,7 +1191,7 @@ class Build:
             m = re.match(r"^([A-Za-z0-9_]+)(.*)$", t)
             base = self._root(m.group(1))
             rest = m.group(2)
-        env = TypeEnv(self.g.vt, self._pt)
+        env = TypeEnv(self.g.tyall, self._pt)
         for tok in re.findall(r"~[a-z]+|\.[a-z]+|\[\d\]", rest):
             if tok[0] == "~":
                 base = ("d", base)
@@ -1054,7 +1213,7 @@ class Build:
         return self.v(name)
 
     def _sig(self, ctx, role, a, fr=(), pmodes=None):
-        return self.g.sig(ctx, role, a, TypeEnv(self.g.vt, self._pt), list(fr), pmodes, self.sty)
+        return self.g.sig(ctx, role, a, TypeEnv(self.g.tyall, self._pt), list(fr), pmodes, self.sty)
 
     def _sop(self, ctx, spec, fr=(), pmodes=None):
         k = spec[0]
@@ -1063,7 +1222,7 @@ class Build:
             return {"k": "w", "a": a, "z": spec[2], "sty": self.sty, "sigs": [self._sig(ctx, "w", a, fr, pmodes)]}
         if k == "cp":
             d, s = self.path(spec[1]), self.path(spec[2])
-            ty = TypeEnv(self.g.vt, self._pt).typeof(d)
+            ty = TypeEnv(self.g.tyall, self._pt).typeof(d)
             return {"k": "cp", "d": d, "s": s, "ty": ty, "sty": self.sty, "sty2": self.sty,
                     "sigs": [self._sig(ctx, "cpd", d, fr, pmodes), self._sig(ctx, "cps", s, fr, pmodes)]}
         if k == "addr":
@@ -1086,49 +1245,69 @@ class Build:
         self.g.emit({"k": "decl", "s": a, "ty": ty, "sty": self.sty, "sigs": [self._sig("M", "decl", a)]})
         return self
 
-    def call(self, params, body, ret=None):
-        """params: [(mode, type, 'arg path')]; body: statement specs using q0.. / self; ret: (expr, dest|None, type)"""
+    def _call(self, params, body, ret, exit_, frc, pmc, ctxc, depth):
         g = self.g
+        outer_pt, outer_pn = self._pt, self._pn
         ps, pt, pm, pn = [], [], [], []
         for i, (mode, ty, arg) in enumerate(params):
             a = self.path(arg)
-            role = {"self": "recv", "pval": "argpval"}.get(mode, "arg" + mode)
-            ps.append({"mode": mode, "ty": ty, "arg": a, "sty": self.sty, "sig": self._sig("M", role, a)})
+            role = {"self": "recv", "pval": "argpval"}.get(mode, "argint" if ty == "int" and mode == "val" else "arg" + mode)
+            ps.append({"mode": mode, "ty": ty, "arg": a, "sty": self.sty, "sig": self._sig(ctxc, role, a, frc, pmc)})
             pt.append(("*" + ty) if mode in ("ptr", "pval") else ty)
             pm.append(mode)
             pn.append("self" if mode == "self" else "q%d" % i)
-        call = {"k": "call", "fid": g.next_fid, "params": ps, "body": [], "ret": None, "sigs": [p["sig"] for p in ps]}
+        call = {"k": "call", "fid": g.next_fid, "params": ps, "body": [], "ret": None, "exit": exit_,
+                "sigs": [p["sig"] for p in ps]}
         g.next_fid += 1
-        trial = copy.deepcopy(g.sh)
-        n0 = len(trial.h)
-        trial.op(call)
-        fr = []
-        for i, p in enumerate(ps):
-            fr.append((n0 + i, ()) if p["mode"] in ("val", "pval", "ptr") else g.sh.resolve(p["arg"], []))
         saved = g.sh
+        trial = copy.deepcopy(g.sh)
+        fr, _, _ = trial.bind(ps, list(frc))
         g.sh = trial
         self._pt, self._pn = pt, pn
-        ctx = "S" if pm[0] == "self" else "F"
+        is_m = pm[0] == "self"
+        ctx = (("T" if is_m else "E") if depth else ("S" if is_m else "F"))
         for spec in body:
+            if spec[0] == "call":
+                nc = self._call(spec[1], spec[2], spec[3] if len(spec) > 3 else None,
+                                spec[4] if len(spec) > 4 else "fall", fr, pm, ctx, depth + 1)
+                self._pt, self._pn = pt, pn
+                trial.call(nc, fr, ())
+                if nc["ret"] and nc["ret"]["d"] is None:
+                    nc["ret"]["loc"] = len(trial.h) - 1
+                    g.tyall[len(trial.h) - 1] = nc["ret"]["ty"]
+                call["body"].append(nc)
+                call["sigs"] += nc["sigs"]
+                continue
             s = self._sop(ctx, spec, fr, pm)
             trial.sop(s, fr)
             call["body"].append(s)
             call["sigs"] += s["sigs"]
+        if ret or exit_ == "ret":
+            for prm in ps:
+                prm["sig"] += "R"
+            call["sigs"] = [prm["sig"] for prm in ps] + call["sigs"][len(ps):]
         if ret:
             e = self.path(ret[0])
-            r = {"e": e, "d": None, "ty": ret[2], "sty": self.sty, "sigs": [self._sig(ctx, "ret", e, fr, pm)]}
-            self._pt, self._pn = (), ()
+            role = "reti" if ret[2] == "int" else "ret"
+            r = {"e": e, "d": None, "ty": ret[2], "sty": self.sty, "sigs": [self._sig(ctx, role, e, fr, pm)]}
+            self._pt, self._pn = outer_pt, outer_pn
             g.sh = saved
             if ret[1] is not None:
                 d = self.path(ret[1])
                 r["d"] = d
                 r["sty2"] = self.sty
-                r["sigs"].append(self._sig("M", "retd", d))
+                r["sigs"].append(self._sig(ctxc, role.replace("ret", "retd"), d, frc, pmc))
             call["ret"] = r
             call["sigs"] += r["sigs"]
-        self._pt, self._pn = (), ()
+        self._pt, self._pn = outer_pt, outer_pn
         g.sh = saved
-        g.emit(call)
+        return call
+
+    def call(self, params, body, ret=None, exit_="fall"):
+        """params: [(mode, type, 'arg path')]; body: statement specs using q0.. / self, or nested calls
+        ("call", params, body[, ret[, exit]]) whose arguments use the enclosing callee's names;
+        ret: (expr, dest|None, type); exit_: 'fall' | 'ret' (a void callee ending in `return;`)"""
+        self.g.emit(self._call(params, body, ret, exit_, (), None, "M", 0))
         return self
 
     def case(self):
@@ -1173,7 +1352,7 @@ def gen_history(seed, k, n, tier):
     place = "global" if rng.random() < 0.5 else "local"
     g = Gen(rng, allow_main, place)
     # a prefix of plain member-wise initialisation (random subset, so that default-zero cells stay in play)
-    env = TypeEnv(g.vt)
+    env = TypeEnv(g.tyall)
     for loc, (_, t) in enumerate(VARS):
         if t.startswith("*"):
             continue
@@ -1400,18 +1579,22 @@ def load_case(c):
         if "as" in s:
             s["as"] = [tup(a) for a in s["as"]]
         return s
+
+    def fix_call(o):
+        o = dict(o)
+        o["params"] = [dict(p, arg=tup(p["arg"])) for p in o["params"]]
+        o["body"] = [(fix_call(s) if s["k"] == "call" else fix_sop(s)) for s in o["body"]]
+        if o.get("ret"):
+            r = dict(o["ret"])
+            r["e"] = tup(r["e"])
+            r["d"] = tup(r["d"]) if r.get("d") is not None else None
+            o["ret"] = r
+        else:
+            o["ret"] = None
+        return o
     out = {"place": c.get("place", "local"), "ops": []}
     for o in c["ops"]:
-        o = fix_sop(o)
-        if o["k"] == "call":
-            o["params"] = [dict(p, arg=tup(p["arg"])) for p in o["params"]]
-            o["body"] = [fix_sop(s) for s in o["body"]]
-            if o.get("ret"):
-                r = dict(o["ret"])
-                r["e"] = tup(r["e"])
-                r["d"] = tup(r["d"]) if r.get("d") is not None else None
-                o["ret"] = r
-        out["ops"].append(o)
+        out["ops"].append(fix_call(o) if o["k"] == "call" else fix_sop(o))
     return out
 
 
